@@ -9,7 +9,7 @@
    Part 2: soundness of the certificate checker that is evaluated on every observed
    Network.from_units result. *)
 From Coq Require Import Permutation Relations.
-From V Require Import C19.Model C19.Proofs.
+From V Require Import C19.Model C19.Proofs C19.ProofsSurgery.
 Local Open Scope nat_scope.
 
 (* the sorted path is a permutation of the input path (no hypothesis on reach: also on cyclic paths) *)
@@ -195,3 +195,86 @@ Proof.
   assert (R0 : rch [3] [[1; 0]; [2; 1]; [3; 2]] [1; 0]) by (eapply rch_step; [exact R1|cbn; tauto|reflexivity]).
   intros L [E|[E|[E|[]]]]; subst; assumption.
 Qed.
+
+(* ---- part 4: Network.sort on nested paths (items = units and sub-networks; reach between items is
+   PathSource.downstream_from on their unit sets).  The sort never loses, adds or duplicates a unit,
+   for every tree, stream graph and `ends`. *)
+Theorem C19_sort_tree_units : forall es all ends i,
+  Permutation (flat (fst (sort_tree es all ends i))) (flat i).
+Proof. exact sort_tree_flat. Qed.
+Print Assumptions C19_sort_tree_units.
+
+(* if downstream_from is a strict partial order on the items of every level (decidable: tree_strictb),
+   the nested sort raises no warning, adds no recycle anywhere, and at every level no later item is
+   upstream of an earlier one *)
+Theorem C19_sort_tree_strict : forall es all ends i, tree_strictb es all ends i = true ->
+  snd (sort_tree es all ends i) = true /\
+  Permutation (all_recycles (fst (sort_tree es all ends i))) (all_recycles i) /\
+  tree_sorted es ends (fst (sort_tree es all ends i)).
+Proof. exact sort_tree_strict. Qed.
+Print Assumptions C19_sort_tree_strict.
+
+(* 0 -> 1 -> 2 -> 3 with the return 2 -> 1 (stream 4) cut: the loop [2; 1] is a sub-network *)
+Example C19_sort_tree_nonvacuous :
+  let all := ex_cyc ++ [(5, nounit, 0); (6, 3, nounit)] in
+  let t := INet [IUnit 3; INet [IUnit 2; IUnit 1] [4]; IUnit 0] [] in
+  tree_strictb ex_cyc all [4; 6] t = true /\
+  sort_tree ex_cyc all [4; 6] t = (INet [IUnit 0; INet [IUnit 1; IUnit 2] [4]; IUnit 3] [], true).
+Proof. split; vm_compute; reflexivity. Qed.
+
+(* ---- part 5: the path surgery (model of _remove_overlap, _append_linear_network,
+   _insert_linear_network, _add_linear_network, join_linear_network, join_recycle_network,
+   _insert_recycle_network; tied to the code by replaying every recorded call).
+   [good x]: x is a network whose `units` equals the set of units of its path, at every level.
+   For every stream graph, every recycle_sink oracle and every fuel: a surgery step on good networks
+   returns a good network whose units are exactly those of the receiver and of the argument —
+   no unit is lost or invented, and `units` stays equal to the units of the path. *)
+Theorem C19_add_linear_units : forall s n, good s -> good n ->
+  good (add_linear s n) /\ seteq (n_units (add_linear s n)) (n_units s ++ n_units n).
+Proof. exact add_linear_ok. Qed.
+Print Assumptions C19_add_linear_units.
+
+Theorem C19_join_linear_units : forall f s n, good s -> good n ->
+  good (join_linear (S f) s n) /\ seteq (n_units (join_linear (S f) s n)) (n_units s ++ n_units n).
+Proof. exact join_linear_ok. Qed.
+Print Assumptions C19_join_linear_units.
+
+Theorem C19_join_recycle_units : forall es all tbl f s n r, good s -> good n ->
+  join_recycle es all tbl f s n = Some r ->
+  good r /\ seteq (n_units r) (n_units s ++ n_units n) /\ seteq (flatn r) (flatn s ++ flatn n).
+Proof.
+  intros es all tbl f s n r Gs Gn H.
+  destruct (join_recycle_ok es all tbl f s n r Gs Gn H) as (Gr & S).
+  split; [exact Gr|]. split; [exact S|].
+  intros z. rewrite <- (units_flat r (proj2 Gr) z), (S z), !in_app_iff.
+  rewrite (units_flat s (proj2 Gs) z), (units_flat n (proj2 Gn) z). reflexivity.
+Qed.
+Print Assumptions C19_join_recycle_units.
+
+Theorem C19_insert_recycle_units : forall es all tbl f s index n pt r, good s -> good n ->
+  insert_recycle es all tbl f s index n pt = Some r ->
+  good r /\ seteq (n_units r) (n_units s ++ n_units n).
+Proof. exact insert_recycle_ok. Qed.
+Print Assumptions C19_insert_recycle_units.
+
+(* "each unit once" is NOT a consequence of the surgery alone: two good, duplicate-free networks whose
+   join holds unit 3 twice (the joined network overlaps two different sub-networks of the receiver;
+   only the first one is merged).  It needs facts about the paths fill_path produces, which are not
+   modelled; the harness therefore evaluates nodup_pathb on the result of every recorded step. *)
+Example C19_surgery_once_needs_path_facts :
+  let s := NN [NN [NU 1; NU 2] [7] [1; 2]; NN [NU 3; NU 4] [8] [3; 4]] [] [1; 2; 3; 4] in
+  let n := NN [NU 2; NU 3] [] [2; 3] in
+  units_okb s = true /\ units_okb n = true /\ nodup_pathb s = true /\ nodup_pathb n = true /\
+  units_okb (add_linear s n) = true /\ nodup_pathb (add_linear s n) = false.
+Proof. repeat split; vm_compute; reflexivity. Qed.
+
+(* non-vacuity: the first minimised defect (a unit fed by two loops): receiver [1; Network([0; 2])],
+   joined loop [1; 0] with recycle stream 0 -> 1; the model merges it into the sub-network and
+   removes unit 1 from the outer path *)
+Example C19_surgery_nonvacuous :
+  let es := [(0, 0, 1); (1, 0, 2); (3, 1, 0); (4, 2, 0)] in
+  let all := es ++ [(2, 0, nounit); (5, nounit, 1)] in
+  let s := NN [NU 1; NN [NU 0; NU 2] [4] [0; 2]] [] [0; 1; 2] in
+  let n := NN [NU 1; NU 0] [0] [0; 1] in
+  join_recycle es all [] 20 s n = Some (NN [NN [NU 1; NU 0; NU 2] [4; 0] [0; 2; 1]] [] [0; 1; 2]).
+Proof. vm_compute. reflexivity. Qed.
